@@ -13,7 +13,7 @@ RULE = ("every spec of the bounded universes (all iso classes of MolGraph n<=4 o
         "transpositions), injection into a pool with negative/huge ids, atom/bond/descriptor insertion orders, every "
         "rewriting of every descriptor through every proper (same parity) and improper (opposite parity) symmetry "
         "element, library relabel_atoms copy/in-place.  Oracle: G==G', G'==G, is_isomorphic, reflexivity must all be True. "
-        "Histories: every sequence of <=2 (thorough <=3) public mutator calls (22-43 per class) after 2-4 roots per class "
+        "Histories: every sequence of <=2 (thorough <=3, stereo reaction class <=2) public mutator calls (22-43 per class) after 2-4 roots per class "
         "on a stereo-valid 14-atom skeleton, graph hashed and compared after every call, then G == freshly built twin both ways. "
         "distinct = distinct (spec, variant) pairs with variant != spec + histories")
 ASSUMPTIONS = ["variants are constructed with refgraph/refstereo only (no library code)",
@@ -141,7 +141,8 @@ def run_item(item):
         ids = list(m.atoms)
         if ids:
             for label, mp in (("lib-relabel-rot", dict(zip(ids, ids[1:] + ids[:1]))),
-                              ("lib-relabel-pool", dict(zip(ids, E.POOLS[seed % 3]))),
+                              # (the pools have 14 identifiers; larger graphs are shifted instead so that the map stays injective)
+                              ("lib-relabel-pool", dict(zip(ids, E.POOLS[seed % 3])) if len(ids) <= 14 else {a: a + 100000 for a in ids}),
                               ("lib-relabel-partial", {ids[0]: max(ids) + 7})):
                 for copy in (True, False):
                     try:
